@@ -101,6 +101,14 @@ pub fn check_pos(ctx: &mut Ctx, p: &Pos, b: &Board) {
     }
     let _ = b.calc_outcome();
     let _ = b.checkers();
+    // text output of the position (fixed buffers would live here too)
+    ctx.add(QUERY, 3);
+    let fen = b.as_fen();
+    if fen != text::fen(p) {
+        ctx.violate(case_pos(p, "as_fen"), format!("as_fen = `{}`", fen));
+    }
+    let _ = b.pretty(owlchess::board::PrettyStyle::Ascii).to_string();
+    let _ = b.pretty(owlchess::board::PrettyStyle::Utf8).to_string();
     // validation of every generated move, make / unmake, text
     let mut s = b.clone();
     for mv in g.iter() {
@@ -130,6 +138,32 @@ pub fn check_pos(ctx: &mut Ctx, p: &Pos, b: &Board) {
     if ctx.samples.is_empty() || sink.len() as u64 >= ctx.cnt[MAXSEMI] && sink.len() > 100 && ctx.samples.len() < 3 {
         ctx.samples.push(json!({"fen": text::fen(p), "semilegal_moves": sink.len(), "legal_moves": gl.len()}));
     }
+}
+
+/// text output and generator sizes only (for the large dense family)
+pub fn check_pos_slim(ctx: &mut Ctx, p: &Pos, b: &Board) {
+    ctx.states += 1;
+    ctx.transitions += 1;
+    ctx.traces += 1;
+    let mut sink: Vec<Move> = Vec::new();
+    semilegal::gen_all_into(b, &mut sink);
+    ctx.max(MAXSEMI, sink.len() as u64);
+    if sink.len() > 256 {
+        ctx.violate(case_pos(p, "semilegal count"), format!("{} semilegal moves", sink.len()));
+        return;
+    }
+    ctx.add(GEN, 2);
+    if semilegal::gen_all(b).len() != sink.len() || sink.len() != p.pseudo_vec().len() {
+        ctx.violate(case_pos(p, "semilegal::gen_all"), "semilegal::gen_all differs in size from the safe sink or the pseudo-legal moves".into());
+    }
+    ctx.max(MAXLEGAL, legal::gen_all(b).len() as u64);
+    ctx.add(QUERY, 3);
+    let fen = b.as_fen();
+    if fen != text::fen(p) {
+        ctx.violate(case_pos(p, "as_fen"), format!("as_fen = `{}`", fen));
+    }
+    let _ = b.pretty(owlchess::board::PrettyStyle::Ascii).to_string();
+    let _ = b.pretty(owlchess::board::PrettyStyle::Utf8).to_string();
 }
 
 /// Appending into a caller-supplied move list through the safe `_into` interface until it is
@@ -336,6 +370,7 @@ pub fn run(run: &mut Run) {
         Sel { m3: true, ray: Some(2), ep: Some(false), ep_spread_only: true, castle: Some(false), promo: Some(false), reach: Some(3), occ: true, ..Default::default() }
     };
     run_universes(run, &sel, DISAGREE, &check_pos);
+    run_universes(run, &Sel { dense: true, ..Default::default() }, DISAGREE, &check_pos_slim);
     maxmob(run, thorough);
     {
         let seeds = crate::universe::seeds();
@@ -393,8 +428,9 @@ pub fn leg(run: &mut Run) {
     run.max_idx = MAX_IDX;
     let thorough = run.thorough();
     run.seq("TABLE INDICES", |ctx| table_indices(ctx));
-    let sel = Sel { m3: true, ray: Some(2), ep: Some(false), ep_spread_only: true, castle: Some(false), promo: Some(false), reach: Some(3), ..Default::default() };
+    let sel = Sel { m3: true, ray: Some(2), ep: Some(false), ep_spread_only: true, castle: Some(false), promo: Some(false), reach: Some(3), occ: true, ..Default::default() };
     run_universes(run, &sel, DISAGREE, &check_pos);
+    run_universes(run, &Sel { dense: true, ..Default::default() }, DISAGREE, &check_pos_slim);
     maxmob(run, thorough);
     let seeds = crate::universe::seeds();
     run.seq("APPEND: gen_all_into into one caller-supplied MoveList until it is full (22 seeds)", |ctx| {
